@@ -122,7 +122,7 @@ pub struct SizesInfo {
 impl SizesInfo {
     /// Get the uncompressed block size of block `block_num`
     fn uncompressed_block_size_at(&self, block_num: usize) -> u32 {
-        if block_num < self.compressed_sizes.len() - 1 {
+        if block_num + 1 < self.compressed_sizes.len() {
             UNCOMPRESSED_DATA_SIZE
         } else {
             self.last_block_size
@@ -134,12 +134,14 @@ impl SizesInfo {
         let block_num = uncompressed_pos / u64::from(UNCOMPRESSED_DATA_SIZE);
         let index = usize::try_from(block_num)
             .map_err(|_| io::Error::new(io::ErrorKind::InvalidData, "Integer conversion failed"))?;
-        Ok(self.compressed_sizes[index])
+        self.compressed_sizes.get(index).copied().ok_or_else(|| {
+            io::Error::new(io::ErrorKind::InvalidData, "No such compressed block").into()
+        })
     }
 
     /// Maximum uncompressed available position
     fn max_uncompressed_pos(&self) -> u64 {
-        (self.compressed_sizes.len() as u64 - 1) * u64::from(UNCOMPRESSED_DATA_SIZE)
+        (self.compressed_sizes.len() as u64).saturating_sub(1) * u64::from(UNCOMPRESSED_DATA_SIZE)
             + u64::from(self.last_block_size)
     }
 
@@ -337,7 +339,9 @@ impl<'a, R: 'a + InnerReaderTrait> LayerReader<'a, R> for CompressionLayerReader
                 let len = u64::from(inner.read_u32::<LittleEndian>()?);
 
                 // Read SizesInfo
-                inner.seek(SeekFrom::Start(pos - len))?;
+                inner.seek(SeekFrom::Start(
+                    pos.checked_sub(len).ok_or(Error::DeserializationError)?,
+                ))?;
                 self.sizes_info = match bincode::options()
                     .with_limit(BINCODE_MAX_DESERIALIZE)
                     .with_fixint_encoding()
@@ -503,10 +507,18 @@ impl<R: Read + Seek> Seek for CompressionLayerReader<'_, R> {
                         if distance_from_end >= 0 {
                             self.seek(SeekFrom::Start(
                                 end_pos
-                                    - u64::try_from(distance_from_end).map_err(|_| {
+                                    .checked_sub(u64::try_from(distance_from_end).map_err(
+                                        |_| {
+                                            io::Error::new(
+                                                io::ErrorKind::InvalidInput,
+                                                "Invalid distance_from_end value",
+                                            )
+                                        },
+                                    )?)
+                                    .ok_or_else(|| {
                                         io::Error::new(
                                             io::ErrorKind::InvalidInput,
-                                            "Invalid distance_from_end value",
+                                            "Seek before the start of the stream",
                                         )
                                     })?,
                             ))
